@@ -29,7 +29,7 @@ EXPLANATION = (
     "binding on every path.  R02.4 (=R01.1): the enclosing-scope lookup chain skips class scopes.  R02.5 (=R15.7): target-name "
     "collectors never bind the object name of an attribute/subscript target.  R02.6: in every filter list, rejecting-only "
     "filters precede accepting ones (the first non-None verdict decides).  R02.7 (=R01.7): merged name tables give the winner the language "
-    "prescribes.  R02.8 (=R01.8): absolute module names are searched on the path before the importer's own folder.  R02.9: the definition-header keyword table covers def, async def and class.  That each candidate evaluates to "
+    "prescribes.  R02.8 (=R01.8): absolute module names are searched on the path before the importer's own folder.  R02.9: the definition-header keyword table covers def, async def and class.  R02.10: a package's __init__ names take precedence over its submodules.  That each candidate evaluates to "
     "the right binding is otherwise not decided."
 )
 ASSUMPTIONS = ["re alternation is ordered (leftmost position, first alternative wins)",
@@ -80,6 +80,7 @@ def check(ctx, res) -> None:
     merge_precedence_rule(ctx, res, "R02.7")
     module_search_order_rule(ctx, res, "R02.8")
     _header_keyword_rule(ctx, res)
+    _package_precedence_rule(ctx, res)
 
 
 def _check_main(ctx, res) -> None:
@@ -373,3 +374,59 @@ def _header_keyword_rule(ctx, res, rule: str = "R02.9") -> None:
                 f"the word finder does not treat the name after '{kw}' as a definition header (table {sorted(table)}): starting rename or "
                 f"find-occurrences on the name in a `{kw} name(...)` header of a method resolves nothing, so the definition and its references "
                 "are not the same occurrence set", function=f.qualname)
+
+
+def _package_precedence_rule(ctx, res, rule: str = "R02.10") -> None:
+    """R02.10: the attributes of a package are the names bound by its __init__.py and, for names it does not bind, the
+    submodules.  rope keeps the submodules as 'structural' and the __init__ names as 'concluded' attributes; for every
+    other defined object structural wins, so the package class must override the merge: in get_attributes the concluded
+    table is merged LAST, in get_attribute it is consulted FIRST."""
+    idx = ctx.idx
+    pk = "rope.base.pyobjectsdef.PyPackage"
+    idx.need_class(pk)
+    base = idx.need_func("rope.base.pyobjects.PyDefinedObject.get_attributes")
+
+    def table_of(c: ast.Call, depth: int = 0) -> Optional[str]:
+        """'structural' / 'concluded' for a call that yields (a filtered copy of) one of the two tables"""
+        n = call_name(c)
+        if n == "_get_structural_attributes":
+            return "structural"
+        if n == "_get_concluded_attributes":
+            return "concluded"
+        if is_self_attr(c.func) and depth < 2:
+            m = idx.find_method(pk, n)
+            if m is not None and m.unit.modname.startswith("rope.base.pyobjects"):
+                # the helper's result is what it iterates over (a filter), not what it merely looks names up in
+                for x in walk_local(m.node):
+                    it = x.iter if isinstance(x, (ast.For, ast.comprehension)) else None
+                    if it is not None:
+                        for cc in [y for y in ast.walk(it) if isinstance(y, ast.Call)]:
+                            t = table_of(cc, depth + 1)
+                            if t:
+                                return t
+        return None
+
+    def order_in(fn) -> List[str]:
+        """sequence of 'structural' / 'concluded' in the order the tables are consulted or merged"""
+        out = []
+        for c in sorted((c for c in ast.walk(fn.node) if isinstance(c, ast.Call)), key=lambda c: (c.lineno, c.col_offset)):
+            k = table_of(c)
+            if k and (not out or out[-1] != k):
+                out.append(k)
+        return out
+
+    ga = idx.find_method(pk, "get_attributes")
+    seq = order_in(ga) if ga is not None else []
+    ok = ga is not None and ga.qualname != base.qualname and seq[:2] == ["structural", "concluded"]
+    res.add(rule, "PyPackage.get_attributes|init-names-win", ok, (ga or base).where,
+            "the __init__ names are merged after (over) the submodules" if ok else
+            f"PyPackage merges its attribute tables in the order {seq or 'inherited: concluded, structural'} (the later one wins): a submodule hides "
+            "the name that __init__.py binds (`from .render import render`), so `from pkg import render` resolves to the module instead of the "
+            "function and its uses are missing from the function's occurrences", function=(ga or base).qualname)
+    g1 = idx.find_method(pk, "get_attribute")
+    seq1 = order_in(g1) if g1 is not None else []
+    ok1 = g1 is not None and g1.unit.modname == "rope.base.pyobjectsdef" and seq1[:1] == ["concluded"]
+    res.add(rule, "PyPackage.get_attribute|init-names-first", ok1, (g1 or base).where,
+            "single-name lookup consults the __init__ names first" if ok1 else
+            f"PyPackage.get_attribute consults {seq1 or 'the inherited order: structural first'}: pkg.name resolves to the submodule although __init__.py rebinds it",
+            function=(g1 or base).qualname)
